@@ -695,6 +695,9 @@ func (e *Exec) stepTypeAssert(fr *frame, st *State, in *ssa.TypeAssert) {
 }
 
 func (e *Exec) typeTag(t types.Type) int {
+	if b, ok := t.(*types.Basic); ok && b.Kind() < types.UntypedBool {
+		t = types.Typ[b.Kind()] // byte/uint8 and rune/int32 are identical types
+	}
 	k := types.TypeString(t, nil)
 	if n, ok := e.typeTags[k]; ok {
 		return n
